@@ -9,6 +9,8 @@ import (
 )
 
 // Sleep is a yield in the model: time is not modelled, only ordering.
+//
+//go:norace
 func Sleep(d time.Duration) { vsched.Point(vsched.KSleep, nil, nil) }
 
 // Ticker mirrors time.Ticker; ticks are environment events fired by the harness.
@@ -19,9 +21,12 @@ type Ticker struct {
 
 var tickers []*Ticker
 
+//go:norace
 func init() { vsched.OnReset(func() { tickers = nil }) }
 
 // NewTicker creates a ticker that never fires by itself.
+//
+//go:norace
 func NewTicker(d time.Duration) *Ticker {
 	t := &Ticker{C: make(chan time.Time, 1)}
 	tickers = append(tickers, t)
@@ -29,12 +34,18 @@ func NewTicker(d time.Duration) *Ticker {
 }
 
 // Stop stops the ticker.
+//
+//go:norace
 func (t *Ticker) Stop() { t.stopped = true }
 
 // Reset mirrors time.Ticker.Reset.
+//
+//go:norace
 func (t *Ticker) Reset(d time.Duration) { t.stopped = false }
 
 // Tickers returns the live tickers created since the last reset (harness use).
+//
+//go:norace
 func Tickers() []*Ticker {
 	var out []*Ticker
 	for _, t := range tickers {
@@ -46,6 +57,8 @@ func Tickers() []*Ticker {
 }
 
 // Fire delivers one tick (dropped if the previous one is still unread, like a real ticker).
+//
+//go:norace
 func (t *Ticker) Fire() bool {
 	vsched.Point(vsched.KChanSend, vsync.ChanKey(t.C), nil)
 	if t.stopped {
